@@ -47,6 +47,19 @@ theorem C20_exactly_once_fifo {s : State} (h : Reachable s) : s.pushed = s.pulle
 theorem C20_delivered_prefix {s : State} (h : Reachable s) : s.pulled <+: s.pushed :=
   ⟨s.items, (C20_exactly_once_fifo h).symm⟩
 
+/-- the same, position by position: in every reachable state (every interleaving of any number of producers and
+consumers) the number of values pushed is the number pulled plus the number still queued, the i-th value ever
+delivered is the i-th value ever pushed, and the i-th queued value is the one pushed at position `pulled + i` -/
+theorem C20_ith_pull_is_ith_push {s : State} (h : Reachable s) :
+    s.pushed.length = s.pulled.length + s.items.length ∧
+    (∀ i, i < s.pulled.length → s.pulled[i]? = s.pushed[i]?) ∧
+    (∀ i, i < s.items.length → s.items[i]? = s.pushed[s.pulled.length + i]?) := by
+  have e := C20_exactly_once_fifo h
+  refine ⟨by rw [e, List.length_append], fun i hi => ?_, fun i hi => ?_⟩
+  · rw [e, List.getElem?_append_left hi]
+  · rw [e, List.getElem?_append_right (by omega)]
+    congr 1; omega
+
 /-- a pull takes the oldest undelivered value -/
 theorem C20_pull_takes_head {s s' : State} {t : Tid} {k : Nat} {x : Val} (h : Reachable s)
     (hs : step s (.run t k) = some s') (hp : s.pc t = .pullTest) (hr : s'.pc t = .pullUnlock (some x)) :
